@@ -57,7 +57,13 @@ at once; M52 (C06: an implicit table whose pairs all live in dotted children los
 (C09: inside an inline table a four-segment dotted key extends a closed inline table stored under a
 dotted prefix) were missed: C06 gained API-flagged tables (set_dotted / set_implicit, visible shapes
 only), C09 gained an inline-table definition stream with an independent reference (keys of up to
-four segments). All 53 are caught now.
+four segments). Third round for C10-C13, C15, C19, C20 (M54-M60): 5 caught at once; M57 (C13: a tuple
+variant read from a table with shuffled index keys, same-typed components, so that two succeeding
+routes return different values) and M58 (C15: an error inside a compound value read through
+`Option<T>` gets the span of the whole optional value) were missed: C13's typed stream gained shuffled
+index-key tables for same-typed tuple variants, C15's typed decodes are repeated through `Option` at
+every level. All 60 are caught now. Over the three rounds: 60 changes, 44 caught at once by the check
+of their own property, 16 led to a strengthening.
 """
 p = os.path.join(ROOT, "DESIGN.md")
 s = open(p).read()
